@@ -27,6 +27,7 @@ CONSTANTS NV,            \* development versions are 1..NV (in cascade order)
           UseQueue,      \* settings.use_queue
           SkipQueue,     \* settings.skip_queue_when_not_needed
           Faults,        \* allow Crash / RejectRef / ThirdParty steps inside jobs
+          FaultKinds,    \* which of them: subset of {"crash", "reject", "third"}
           MaxC,          \* bound on the number of commits (state constraint)
           RepStatuses,   \* statuses CI may report
           Atomic,        \* TRUE: a job is one step (exhaustive configurations without faults)
@@ -80,9 +81,11 @@ VARIABLES G,      \* commits: [n, anc : 1..n -> SUBSET 1..n, lab : 1..n -> {"bas
           bs,     \* build status: commit -> status (absent = NOTSTARTED)
           greeted,\* PRs that received the init message
           job,    \* [on, kind, arg, plan, status, loc, pend]
+          lastmsg,\* code of the robot's last message on each PR (messages equal to it are not posted again);
+                  \* it only decides whether a comment operation exists, never a ref: hidden by VIEW
           last,   \* label of the last step (for replay; hidden by VIEW)
           out     \* JSON projection of the state (only when EmitJson; hidden by VIEW)
-vars == <<G, refs, pr, child, bs, greeted, job, last, out>>
+vars == <<G, refs, pr, child, bs, greeted, job, lastmsg, last, out>>
 View == <<G, refs, pr, child, bs, greeted, job>>
 
 NoJob == [on |-> FALSE, kind |-> "", arg |-> 0, plan |-> <<>>, status |-> "", rej |-> {}, tp |-> 0]
@@ -403,6 +406,7 @@ Init ==
   /\ child = {}
   /\ bs = <<>>
   /\ greeted = {}
+  /\ lastmsg = [p \in 1..NP |-> ""]
   /\ job = NoJob
   /\ last = <<"init">>
 
@@ -421,7 +425,7 @@ OpenPR(p, dst) ==
         /\ refs' = Set(refs, SrcN(p), g2.n)
   /\ pr' = [pr EXCEPT ![p] = [@ EXCEPT !.st = "open", !.dst = dst, !.appr = AutoApprove]]
   /\ last' = <<"open_pr", p, dst, G'.n>>
-  /\ UNCHANGED <<child, bs, greeted, job>>
+  /\ UNCHANGED <<child, bs, greeted, job, lastmsg>>
 
 PushSrc(p) ==
   /\ Idle /\ pr[p].st \in {"open", "merged"} /\ SrcN(p) \in DOMAIN refs
@@ -429,13 +433,19 @@ PushSrc(p) ==
      IN /\ G' = g2
         /\ refs' = Set(refs, SrcN(p), g2.n)
   /\ last' = <<"push_src", p, G'.n>>
-  /\ UNCHANGED <<pr, child, bs, greeted, job>>
+  /\ UNCHANGED <<pr, child, bs, greeted, job, lastmsg>>
 
 Approve(p) ==
   /\ Idle /\ pr[p].st = "open" /\ ~ pr[p].appr
   /\ pr' = [pr EXCEPT ![p].appr = TRUE]
   /\ last' = <<"approve", p>>
-  /\ UNCHANGED <<G, refs, child, bs, greeted, job>>
+  /\ UNCHANGED <<G, refs, child, bs, greeted, job, lastmsg>>
+
+Unapprove(p) ==
+  /\ Idle /\ pr[p].st = "open" /\ pr[p].appr /\ ~ AutoApprove
+  /\ pr' = [pr EXCEPT ![p].appr = FALSE]
+  /\ last' = <<"unapprove", p>>
+  /\ UNCHANGED <<G, refs, child, bs, greeted, job, lastmsg>>
 
 SetOpt(p, o) ==
   /\ Idle /\ pr[p].st = "open"
@@ -444,13 +454,13 @@ SetOpt(p, o) ==
      \/ o = "unwait" /\ pr[p].wait /\ pr' = [pr EXCEPT ![p].wait = FALSE]
      \/ o = "nooct" /\ ~ pr[p].nooct /\ pr' = [pr EXCEPT ![p].nooct = TRUE]
   /\ last' = <<"opt", p, o>>
-  /\ UNCHANGED <<G, refs, child, bs, greeted, job>>
+  /\ UNCHANGED <<G, refs, child, bs, greeted, job, lastmsg>>
 
 Decline(p) ==
   /\ Idle /\ pr[p].st = "open" /\ ~ MergedNow(p)
   /\ pr' = [pr EXCEPT ![p].st = "declined"]
   /\ last' = <<"decline", p>>
-  /\ UNCHANGED <<G, refs, child, bs, greeted, job>>
+  /\ UNCHANGED <<G, refs, child, bs, greeted, job, lastmsg>>
 
 Reportable == {refs[n] : n \in {x \in DOMAIN refs : Kind(x) \in {"src", "w", "q", "qw"}}}
 EvalCommits == IF ReportFine THEN Reportable
@@ -459,7 +469,7 @@ Report(c, s) ==
   /\ ReportFine /\ Idle /\ c \in Reportable /\ Status(c) # s /\ (ReportOnce => c \notin DOMAIN bs)
   /\ bs' = Set(bs, c, s)
   /\ last' = <<"report", c, s>>
-  /\ UNCHANGED <<G, refs, pr, child, greeted, job>>
+  /\ UNCHANGED <<G, refs, pr, child, greeted, job, lastmsg>>
 \* coarse CI: every integration tip of p (source + w/), or every queue commit of p
 PrTips(p) == {refs[n] : n \in {x \in DOMAIN refs : (Kind(x) \in {"src", "w"}) /\ x[2] = p}}
 QwTips(p) == {refs[n] : n \in {x \in DOMAIN refs : Kind(x) = "qw" /\ x[2] = p}}
@@ -468,7 +478,7 @@ ReportSet(tag, p, S, s) ==
   /\ ReportOnce => S \ DOMAIN bs # {}
   /\ bs' = [c \in DOMAIN bs \cup S |-> IF c \in S /\ (~ ReportOnce \/ c \notin DOMAIN bs) THEN s ELSE bs[c]]
   /\ last' = <<tag, p, s>>
-  /\ UNCHANGED <<G, refs, pr, child, greeted, job>>
+  /\ UNCHANGED <<G, refs, pr, child, greeted, job, lastmsg>>
 
 (***************************************************************************)
 (* Bert-E                                                                  *)
@@ -489,19 +499,30 @@ ApplyPushAll(g, r, rej, op) ==     \* git push --all --atomic [--prune]
   IN IF ok THEN [refs |-> [n \in heads \cup (DOMAIN r \ gone) |-> IF n \in heads THEN op.loc[n] ELSE r[n]],
                  fail |-> FALSE]
      ELSE [refs |-> r, fail |-> TRUE]
-\* st = [refs, child, greeted, fail]
+\* messages that are posted even when equal to the robot's previous message (exceptions.py)
+AlwaysPost == {"integration_data_created", "partial_merge", "help", "reset_complete"}
+\* st = [refs, child, greeted, lastmsg, fail]
 OpEffect(g, st, rej, op) ==
   IF op.k = "push" THEN LET x == ApplyPush(g, st.refs, rej, op) IN [st EXCEPT !.refs = x.refs, !.fail = x.fail]
   ELSE IF op.k = "pushall" THEN LET x == ApplyPushAll(g, st.refs, rej, op) IN [st EXCEPT !.refs = x.refs, !.fail = x.fail]
   ELSE IF op.k = "delref" THEN (IF op.names \cap rej = {} THEN [st EXCEPT !.refs = Del(st.refs, op.names)]
                                 ELSE [st EXCEPT !.fail = TRUE])
-  ELSE IF op.k = "comment" THEN [st EXCEPT !.greeted = IF op.code = "init" THEN @ \cup {op.p} ELSE @]
+  ELSE IF op.k = "comment" THEN [st EXCEPT !.greeted = IF op.code = "init" THEN @ \cup {op.p} ELSE @,
+                                            !.lastmsg = [@ EXCEPT ![op.p] = op.code]]
   ELSE IF op.k = "createpr" THEN [st EXCEPT !.child = @ \cup {<<op.p, op.b>>}]
   ELSE [st EXCEPT !.child = @ \ {<<op.p, op.b>>}]
 RECURSIVE RunPlan(_, _, _)
 RunPlan(g, st, plan) ==
   IF plan = <<>> \/ st.fail THEN st ELSE RunPlan(g, OpEffect(g, st, {}, Head(plan)), Tail(plan))
-Cur == [refs |-> refs, child |-> child, greeted |-> greeted, fail |-> FALSE]
+Cur == [refs |-> refs, child |-> child, greeted |-> greeted, lastmsg |-> lastmsg, fail |-> FALSE]
+\* _send_comment: a message equal to the robot's last message on that pull request is not posted
+RECURSIVE Dedupe(_, _)
+Dedupe(plan, lm) ==
+  IF plan = <<>> THEN <<>>
+  ELSE LET op == Head(plan)
+       IN IF op.k = "comment" /\ op.code = lm[op.p] /\ op.code \notin AlwaysPost
+          THEN Dedupe(Tail(plan), lm)
+          ELSE <<op>> \o Dedupe(Tail(plan), IF op.k = "comment" THEN [lm EXCEPT ![op.p] = op.code] ELSE lm)
 
 \* a pull request whose source is contained in its destination is closed (MERGED) for good
 Latch(g, r) == [p \in 1..NP |->
@@ -511,20 +532,21 @@ Latch(g, r) == [p \in 1..NP |->
 Begin(kind, arg, e) ==
   /\ G' = e.g
   /\ IF Atomic
-     THEN LET st == RunPlan(e.g, Cur, e.plan)
-          IN /\ refs' = st.refs /\ child' = st.child /\ greeted' = st.greeted
+     THEN LET st == RunPlan(e.g, Cur, Dedupe(e.plan, lastmsg))
+          IN /\ refs' = st.refs /\ child' = st.child /\ greeted' = st.greeted /\ lastmsg' = st.lastmsg
              /\ job' = NoJob
              /\ pr' = Latch(e.g, st.refs)
              /\ last' = <<"job", kind, arg, IF st.fail THEN "PushFailedException" ELSE e.status, e.pend>>
-     ELSE /\ job' = [on |-> TRUE, kind |-> kind, arg |-> arg, plan |-> e.plan, status |-> e.status,
+     ELSE /\ job' = [on |-> TRUE, kind |-> kind, arg |-> arg, plan |-> Dedupe(e.plan, lastmsg), status |-> e.status,
                      rej |-> {}, tp |-> 0]
           /\ last' = <<"job_begin", kind, arg, e.status, e.pend>>
-          /\ UNCHANGED <<refs, child, greeted, pr>>
+          /\ UNCHANGED <<refs, child, greeted, pr, lastmsg>>
   /\ UNCHANGED bs
 
 JobBegin ==
   /\ Idle
   /\ \/ \E p \in 1..NP : pr[p].st # "none" /\ Begin("EvalPR", p, EvalPrPlan(G, refs, p))
+     \/ \E x \in child : Begin("EvalChild", x, EvalPrPlan(G, refs, x[1]))    \* event on an integration PR = event on its parent
      \/ \E c \in EvalCommits : Begin("EvalCommit", c, EvalCommitPlan(G, refs, c))
      \/ UseQueue /\ QRefs(refs) # {} /\ Begin("ForceMerge", 0, ForceMergePlan(G, refs))
      \/ UseQueue /\ QRefs(refs) # {} /\ Begin("RebuildQueues", 0, RebuildPlan(G, refs))
@@ -533,7 +555,7 @@ JobBegin ==
 ApplyOp ==
   /\ job.on /\ job.plan # <<>>
   /\ LET st == OpEffect(G, Cur, job.rej, Head(job.plan))
-     IN /\ refs' = st.refs /\ child' = st.child /\ greeted' = st.greeted
+     IN /\ refs' = st.refs /\ child' = st.child /\ greeted' = st.greeted /\ lastmsg' = st.lastmsg
         /\ job' = IF st.fail THEN [job EXCEPT !.plan = <<>>, !.status = "PushFailedException", !.rej = {}]
                   ELSE [job EXCEPT !.plan = Tail(job.plan), !.rej = {}]
   /\ last' = <<"op", Head(job.plan).k>>
@@ -544,40 +566,40 @@ JobEnd ==
   /\ job' = NoJob
   /\ pr' = Latch(G, refs)
   /\ last' = <<"job_end", job.kind, job.arg, job.status>>
-  /\ UNCHANGED <<G, refs, child, bs, greeted>>
+  /\ UNCHANGED <<G, refs, child, bs, greeted, lastmsg>>
 
 (* faults and third parties, only inside a job, at most one per job *)
 Crash ==
-  /\ Faults /\ job.on /\ job.plan # <<>> /\ job.tp = 0
+  /\ Faults /\ "crash" \in FaultKinds /\ job.on /\ job.plan # <<>> /\ job.tp = 0
   /\ job' = [job EXCEPT !.plan = <<>>, !.status = "Crashed", !.tp = 1]
   /\ last' = <<"crash", Len(job.plan)>>
-  /\ UNCHANGED <<G, refs, pr, child, bs, greeted>>
+  /\ UNCHANGED <<G, refs, pr, child, bs, greeted, lastmsg>>
 RejectRef(n) ==
-  /\ Faults /\ job.on /\ job.plan # <<>> /\ job.tp = 0
+  /\ Faults /\ "reject" \in FaultKinds /\ job.on /\ job.plan # <<>> /\ job.tp = 0
   /\ Head(job.plan).k \in {"push", "pushall", "delref"}
   /\ job' = [job EXCEPT !.rej = {n}, !.tp = 1]
   /\ last' = <<"reject", n>>
-  /\ UNCHANGED <<G, refs, pr, child, bs, greeted>>
+  /\ UNCHANGED <<G, refs, pr, child, bs, greeted, lastmsg>>
 ThirdCreate ==
-  /\ Faults /\ job.on /\ job.plan # <<>> /\ job.tp = 0 /\ ThirdN \notin DOMAIN refs
+  /\ Faults /\ "third" \in FaultKinds /\ job.on /\ job.plan # <<>> /\ job.tp = 0 /\ ThirdN \notin DOMAIN refs
   /\ Head(job.plan).k \in {"push", "pushall", "delref"}
   /\ LET g2 == NewCommit(G, {refs[BN(Dev(NV))]}, "third")
      IN G' = g2 /\ refs' = Set(refs, ThirdN, g2.n)
   /\ job' = [job EXCEPT !.tp = 1]
   /\ last' = <<"third_create">>
-  /\ UNCHANGED <<pr, child, bs, greeted>>
+  /\ UNCHANGED <<pr, child, bs, greeted, lastmsg>>
 ThirdPushSrc(p) ==
-  /\ Faults /\ job.on /\ job.plan # <<>> /\ job.tp = 0 /\ SrcN(p) \in DOMAIN refs
+  /\ Faults /\ "third" \in FaultKinds /\ job.on /\ job.plan # <<>> /\ job.tp = 0 /\ SrcN(p) \in DOMAIN refs
   /\ Head(job.plan).k \in {"push", "pushall", "delref"}
   /\ LET g2 == NewCommit(G, {refs[SrcN(p)]}, "third")
      IN G' = g2 /\ refs' = Set(refs, SrcN(p), g2.n)
   /\ job' = [job EXCEPT !.tp = 1]
   /\ last' = <<"third_push_src", p>>
-  /\ UNCHANGED <<pr, child, bs, greeted>>
+  /\ UNCHANGED <<pr, child, bs, greeted, lastmsg>>
 
 Next ==
   \/ \E p \in 1..NP, d \in Branches : OpenPR(p, d)
-  \/ \E p \in 1..NP : PushSrc(p) \/ Approve(p) \/ Decline(p)
+  \/ \E p \in 1..NP : PushSrc(p) \/ Approve(p) \/ Decline(p) \/ Unapprove(p)
   \/ \E p \in 1..NP, o \in Opts : SetOpt(p, o)
   \/ \E c \in 1..G.n, s \in RepStatuses : Report(c, s)
   \/ \E p \in 1..NP, s \in RepStatuses : ReportSet("report_pr", p, PrTips(p), s) \/ ReportSet("report_qw", p, QwTips(p), s)
